@@ -34,12 +34,36 @@ impl Hasher for Fnv {
 	}
 }
 
-pub fn h2<T: ?Sized + Hash>(v: &T) -> (u64, u64) {
+/// A hasher that is sensitive to HOW the bytes are fed: every `write` call mixes in its own length
+/// first (as FxHash, aHash and hashbrown's default do in effect by consuming word-sized chunks).
+/// `Hasher` explicitly allows this ("write(a); write(b)" need not equal "write(ab)"), so equal
+/// values must produce the same SEQUENCE of calls, not only the same concatenated bytes.
+pub struct Chunked(u64);
+impl Default for Chunked {
+	fn default() -> Self {
+		Chunked(0x9e3779b97f4a7c15)
+	}
+}
+impl Hasher for Chunked {
+	fn finish(&self) -> u64 {
+		self.0
+	}
+	fn write(&mut self, bytes: &[u8]) {
+		for b in (bytes.len() as u64).to_le_bytes().iter().chain(bytes) {
+			self.0 ^= *b as u64;
+			self.0 = self.0.wrapping_mul(0x100000001b3).rotate_left(5);
+		}
+	}
+}
+
+pub fn h2<T: ?Sized + Hash>(v: &T) -> (u64, u64, u64) {
 	let mut a = DefaultHasher::new();
 	v.hash(&mut a);
 	let mut b = Fnv::default();
 	v.hash(&mut b);
-	(a.finish(), b.finish())
+	let mut c = Chunked::default();
+	v.hash(&mut c);
+	(a.finish(), b.finish(), c.finish())
 }
 
 fn gd<R>(what: &str, f: impl FnOnce() -> R) -> Result<R, Failure> {
@@ -203,6 +227,34 @@ both_families! {
 				view::<$TBuf, $T>($name, t, cx, ab, bb)?;
 			}};
 		}
+		// a value together with VIEWS OF ITS OWN BUFFER that start at the same address (valid prefixes of its
+		// text, base(), directory(), parent): the laws hold for them like for any other values
+		macro_rules! aliased {
+			($T:ty) => {{
+				if <$T>::new(t.a.as_str()).is_ok() {
+					let v = <$T>::new(t.a.as_str()).unwrap();
+					for k in crate::gen::valid_prefix_cuts(t.a.as_str(), 4, |p| <$T>::new(p).is_ok()) {
+						let w = <$T>::new(&t.a.as_str()[..k]).unwrap();
+						let tt = Triple { fam: t.fam, kind: t.kind, a: t.a.clone(), b: t.a[..k].to_string(), c: t.a.clone() };
+						laws::<$T>(&tt, cx, v, w, v).map_err(|f| Failure::new(format!("aliased:{}", f.sig), format!("(second value is a prefix view of the first one's buffer) {}", f.msg)))?;
+						cx.class("aliased-prefix-view");
+					}
+				}
+			}};
+		}
+		match t.kind {
+			Kind::Reference => aliased!(RiRef),
+			Kind::Full => aliased!(Ri),
+			Kind::Authority => aliased!(Authority),
+			Kind::Path => aliased!(Path),
+			Kind::Segment => aliased!(Segment),
+			Kind::Host => aliased!(Host),
+			Kind::UserInfo => aliased!(UserInfo),
+			Kind::Query => aliased!(Query),
+			Kind::Fragment => aliased!(Fragment),
+			Kind::Scheme => aliased!(Scheme),
+			Kind::Port => aliased!(Port),
+		}
 		match t.kind {
 			Kind::Reference => {
 				comp!(RiRef, RiRefBuf, "RiRefBuf as RiRef");
@@ -276,7 +328,7 @@ impl Prop for C08 {
 	const ID: &'static str = "C08";
 
 	fn rule() -> String {
-		"cases = the C07 triples (family, kind, a, b, c: chains of metamorphic variants or independent values; ill-formed %XX octets included). Oracle (metamorphic): on all 9 ordered pairs: a == b => equal hashes under two fixed hashers (std DefaultHasher with fixed keys, FNV-1a written in the harness); cmp antisymmetric, cmp == Equal <=> ==, partial_cmp == Some(cmp); <= transitive over the 6 permutations; owned forms give the same answers as borrowed forms; all 23 cross-type PartialOrd impls agree; the four forms RiRef/RiRefBuf/Ri/RiBuf of one text hash identically; for every Borrow<U> for K between the library's own types (every TBuf->T, DataUrlBuf->DataUrl, RiBuf->RiRef, Ri->RiRef, Uri/UriBuf->Iri/IriRef): hash(k) == hash(k.borrow()), cmp and == agree, HashSet<K>/BTreeSet<K> lookups through the view of an equal value hit and of an unequal value miss. Non-trivial: an equal-but-textually-different pair, or a lookup through a view of another type.".into()
+		"cases = the C07 triples (family, kind, a, b, c: chains of metamorphic variants or independent values; ill-formed %XX octets included). Oracle (metamorphic): on all 9 ordered pairs: a == b => equal hashes under three fixed hashers (std DefaultHasher with fixed keys, FNV-1a written in the harness, and a hasher sensitive to how the bytes are split over `write` calls, as FxHash/aHash are); cmp antisymmetric, cmp == Equal <=> ==, partial_cmp == Some(cmp); <= transitive over the 6 permutations; owned forms give the same answers as borrowed forms; all 23 cross-type PartialOrd impls agree; the four forms RiRef/RiRefBuf/Ri/RiBuf of one text hash identically; for every Borrow<U> for K between the library's own types (every TBuf->T, DataUrlBuf->DataUrl, RiBuf->RiRef, Ri->RiRef, Uri/UriBuf->Iri/IriRef): hash(k) == hash(k.borrow()), cmp and == agree, HashSet<K>/BTreeSet<K> lookups through the view of an equal value hit and of an unequal value miss. The same laws on a value paired with up to 4 prefix VIEWS of its own buffer (same start address). Non-trivial: an equal-but-textually-different pair, or a lookup through a view of another type.".into()
 	}
 
 	fn cases(tier: Tier) -> u64 {
@@ -285,6 +337,10 @@ impl Prop for C08 {
 
 	fn strategy(_tier: Tier) -> BoxedStrategy<Triple> {
 		triple(true)
+	}
+
+	fn enumerate(_tier: Tier, shard: usize, nshards: usize, f: &mut dyn FnMut(Triple, bool) -> bool) -> Vec<&'static str> {
+		crate::props::cmpgen::long_near_misses(shard, nshards, f)
 	}
 
 	fn check(t: &Triple, cx: &mut Ctx) -> Result<(), Failure> {
